@@ -16,6 +16,9 @@ echo "== demo without change (expected to pass)"; cargo test --offline --test $D
 git apply $OUT/patch.diff
 echo "== check against /repo with the change"
 cd /repo && git apply $OUT/patch.diff || { echo "patch does not apply to /repo"; exit 2; }
+cp /verif/evidence/$PROP.json /var/tmp/evidence_$PROP.keep 2>/dev/null
 cd /verif && ./check $PROP quick > $OUT/check_output.txt; echo "exit=$?" >> $OUT/check_output.txt; cat $OUT/check_output.txt
 git -C /repo checkout -- . 
+# the evidence file committed under /verif must describe the unchanged tree, not the seeded one
+mv /var/tmp/evidence_$PROP.keep /verif/evidence/$PROP.json 2>/dev/null
 git -C /repo status --short
